@@ -5,8 +5,8 @@ Reads `$FE_REPO/src/point_one/fusion_engine/messages/*.h` for NAMES ONLY:
   * every struct that declares `MESSAGE_TYPE` / `MESSAGE_VERSION`.
 It never computes a value.  It emits a C++ probe program that includes the real headers and prints
 `(long long)E::NAME` for every enumerator, `IsCommand(t)` / `IsResponse(t)` for every `MessageType` enumerator and
-`S::MESSAGE_TYPE`, `(int)S::MESSAGE_VERSION` for every payload struct; the probe is compiled (-std=c++14
--I$FE_REPO/src) into $FE_BUILD and run, and its output is the table.
+`S::MESSAGE_TYPE`, `(int)S::MESSAGE_VERSION` for every payload struct; the probe is compiled (-std=<CMAKE_CXX_STANDARD of the repository's CMakeLists.txt>, and again under every later standard by the
+check; -I$FE_REPO/src) into $FE_BUILD and run, and its output is the table.
   * every DECLARATION of a function named `IsCommand` / `IsResponse` (free function, overload, member function), with
     its parameter list as written.  For each declared call form the probe builds an argument of the declared parameter
     type for every `MessageType` enumerator (the enumerator itself; a default-constructed struct whose `MessageType`
@@ -471,18 +471,42 @@ def compiler():
     raise RuntimeError('no C++ compiler (g++ / clang++) found')
 
 
-def run_probe(repo, build, paths, enums, structs, groups=(), cxx=None, forms=()):
+KNOWN_STANDARDS = (11, 14, 17, 20)
+
+
+def project_standards(repo):
+    """-> (the language standard the project builds with, every standard to be covered): `set(CMAKE_CXX_STANDARD N)` of the
+    repository's own CMakeLists.txt (the smallest if there are several) and the later standards in KNOWN_STANDARDS - the
+    headers select code by `__cplusplus` (common/portability.h), so the tables are a function of the standard."""
+    found = []
+    for path in [os.path.join(repo, 'CMakeLists.txt')] + sorted(glob.glob(os.path.join(repo, 'src', '**', 'CMakeLists.txt'), recursive=True)):
+        try:
+            txt = re.sub(r'#[^\n]*', '', open(path, errors='replace').read())
+        except OSError:
+            continue
+        found += [int(x) for x in re.findall(r'\bset\s*\(\s*CMAKE_CXX_STANDARD\s+(\d+)', txt)]
+        found += [int(x) for x in re.findall(r'\bCXX_STANDARD\s+(\d+)', txt)]
+        found += [int(x) for x in re.findall(r'\bcxx_std_(\d+)\b', txt)]
+    found = [x for x in found if x in KNOWN_STANDARDS]
+    if not found:
+        raise TranslateError('CMakeLists.txt', 'no CMAKE_CXX_STANDARD found: the language standard of the project is not known')
+    first = min(found)
+    return first, [x for x in KNOWN_STANDARDS if x >= first]
+
+
+def run_probe(repo, build, paths, enums, structs, groups=(), cxx=None, forms=(), std=None):
     os.makedirs(build, exist_ok=True)
     cxx = cxx or compiler()
+    std = std or 'c++%d' % project_standards(repo)[0]
     src = os.path.join(build, 'c03_probe.cc')
     exe = os.path.join(build, 'c03_probe')
     with open(src, 'w') as f:
         f.write(probe_source(paths, enums, structs, groups, forms))
     inc = os.path.join(repo, 'src')
-    p = subprocess.run([cxx, '-std=c++14', '-O0', '-w', '-I' + inc, src, '-o', exe],
+    p = subprocess.run([cxx, '-std=' + std, '-O0', '-w', '-I' + inc, src, '-o', exe],
                        stdout=subprocess.PIPE, stderr=subprocess.STDOUT, text=True)
     if p.returncode != 0:
-        raise TranslateError('c03_probe.cc', 'probe does not compile (%s): %s' % (cxx, p.stdout[-1500:]))
+        raise TranslateError('c03_probe.cc', 'probe does not compile (%s -std=%s): %s' % (cxx, std, p.stdout[-1500:]))
     p = subprocess.run([exe], stdout=subprocess.PIPE, stderr=subprocess.STDOUT, text=True, timeout=60)
     lines = p.stdout.split('\n')
     if p.returncode != 0 or 'END' not in lines:
@@ -516,17 +540,19 @@ def run_probe(repo, build, paths, enums, structs, groups=(), cxx=None, forms=())
     sw = os.path.join(build, 'c03_switch.cc')
     with open(sw, 'w') as f:
         f.write(switch_source(paths, enums, values))
-    p = subprocess.run([cxx, '-std=c++14', '-fsyntax-only', '-I' + inc, sw],
+    p = subprocess.run([cxx, '-std=' + std, '-fsyntax-only', '-I' + inc, sw],
                        stdout=subprocess.PIPE, stderr=subprocess.STDOUT, text=True)
     if p.returncode != 0:
         raise TranslateError('c03_switch.cc', 'the parser missed an enumerator (or misread one): %s' % p.stdout[-1500:])
     return values, classif, regs, fres
 
 
-def extract(repo, build, cxx=None):
-    """-> table dict (JSON-able)."""
+def extract(repo, build, cxx=None, std=None):
+    """-> table dict (JSON-able).  `std`: language standard of the probe (default: the project's own, CMAKE_CXX_STANDARD)."""
     paths, enums, structs, groups, forms = parse_all(repo)
-    values, classif, regs, fres = run_probe(repo, build, paths, enums, structs, groups, cxx, forms)
+    cxx = cxx or compiler()
+    std = std or 'c++%d' % project_standards(repo)[0]
+    values, classif, regs, fres = run_probe(repo, build, paths, enums, structs, groups, cxx, forms, std)
     mt_members = [m for e in enums if e['name'] == 'MessageType' for m in e['members']]
     table = {
         'enums': [{'name': e['name'], 'underlying': e['underlying'], 'file': e['file'], 'line': e['line'],
@@ -544,6 +570,7 @@ def extract(repo, build, cxx=None):
         'n_enum_blocks': len(enums),
         'n_enumerators': sum(len(e['members']) for e in enums),
         'sources': sha256_files(paths),
+        'config': {'compiler': cxx, 'std': std},
     }
     for e in table['enums'] + table['const_groups']:
         code(e['name'])
@@ -565,6 +592,8 @@ def to_lean(t):
          'compiled against the real headers: (long long)E::NAME, IsCommand/IsResponse(MessageType::NAME),',
          'S::MESSAGE_TYPE, (int)S::MESSAGE_VERSION, and every declared overload of IsCommand / IsResponse called with',
          'an argument of its declared parameter type.',
+         'Language standard of the probe: -std=%s (CMAKE_CXX_STANDARD of the repository); the tables printed under the later' % t.get('config', {}).get('std'),
+         'standards are compared with these, entry by entry, by tools/props/c03.py.',
          '-/',
          'namespace FeVerif.C03.Cxx', '']
     for e in t['enums'] + t['const_groups']:
